@@ -258,12 +258,12 @@ func Specs() map[string]*PropSpec {
 	ps := func(fn string, kv ...string) Inst { return Inst{Pkg: "precompiles/staking", Fn: fn, Params: pm(kv...), EngineReplay: true} }
 	m["C04"] = &PropSpec{
 		ID: "C04", Pkgs: []string{"./precompiles/staking", "./precompiles/distribution", "./precompiles/ics20"},
-		Quick: []Inst{ps("VerifC04_Identity"), ps("VerifC04_Allowance", "steps", "3"), {Pkg: "precompiles/distribution", Fn: "VerifC04_Distribution", Params: pm(), EngineReplay: true},
+		Quick: []Inst{ps("VerifC04_Identity"), ps("VerifC04_CreateValidatorIdentity"), ps("VerifC04_Allowance", "steps", "3"), {Pkg: "precompiles/distribution", Fn: "VerifC04_Distribution", Params: pm(), EngineReplay: true},
 			{Pkg: "precompiles/ics20", Fn: "VerifC04_Ics20", Params: pm("checkSupply", "0"), EngineReplay: true}, {Pkg: "precompiles/ics20", Fn: "VerifC04_Ics20Allowance", Params: pm("steps", "3"), EngineReplay: true}, {Pkg: "precompiles/ics20", Fn: "VerifC04_Ics20Approve", Params: pm(), EngineReplay: true}},
-		Thorough: []Inst{{Pkg: "precompiles/ics20", Fn: "VerifC04_Ics20Approve", Params: pm(), EngineReplay: true}, {Pkg: "precompiles/ics20", Fn: "VerifC04_Ics20Allowance", Params: pm("steps", "4"), EngineReplay: true}, ps("VerifC04_Identity"), ps("VerifC04_Allowance", "steps", "5"), {Pkg: "precompiles/distribution", Fn: "VerifC04_Distribution", Params: pm(), EngineReplay: true},
+		Thorough: []Inst{{Pkg: "precompiles/ics20", Fn: "VerifC04_Ics20Approve", Params: pm(), EngineReplay: true}, {Pkg: "precompiles/ics20", Fn: "VerifC04_Ics20Allowance", Params: pm("steps", "4"), EngineReplay: true}, ps("VerifC04_Identity"), ps("VerifC04_CreateValidatorIdentity"), ps("VerifC04_Allowance", "steps", "5"), {Pkg: "precompiles/distribution", Fn: "VerifC04_Distribution", Params: pm(), EngineReplay: true},
 			{Pkg: "precompiles/ics20", Fn: "VerifC04_Ics20", Params: pm("checkSupply", "0"), EngineReplay: true}},
 		Bounds: map[string]string{
-			"quick":    "staking precompile delegate / undelegate for every (signer, caller in {signer, contract}, named account in 3 addresses) relationship x grant state {absent, wrong type, limited, unlimited, other message type} x amount < 2^128 x module accepts/refuses; sequences of <= 3 operations from {approve(x), approve(unlimited), increase(x), decrease(x), revoke, spend(x) by the contract} with symbolic amounts < 2^200; distribution withdrawDelegatorRewards / claimRewards / withdrawValidatorCommission / setWithdrawAddress for every (caller, named account) relationship; ICS-20 transfer for every (caller, sender) relationship x channel {granted, existing but not granted, absent} x grant state {absent, wrong type, limited, unlimited, limited with an allow list excluding the receiver} x amount < 2^100 x module accepts/refuses, with ibc-go's own TransferAuthorization.Accept; sequences of <= 3 ICS-20 increaseAllowance / decreaseAllowance / spend operations over a grant with two channel allocations, each channel's limit compared with a running model after every step",
+			"quick":    "staking precompile delegate / undelegate for every (signer, caller in {signer, contract}, named account in 3 addresses) relationship x grant state {absent, wrong type, limited, unlimited, other message type} x amount < 2^128 x module accepts/refuses; createValidator for every (caller, named account) relationship x grant state {absent, generic grant for MsgCreateValidator, unlimited delegate grant}: it reaches the staking module only when the signer calls directly for its own account; sequences of <= 3 operations from {approve(x), approve(unlimited), increase(x), decrease(x), revoke, spend(x) by the contract} with symbolic amounts < 2^200; distribution withdrawDelegatorRewards / claimRewards / withdrawValidatorCommission / setWithdrawAddress for every (caller, named account) relationship; ICS-20 transfer for every (caller, sender) relationship x channel {granted, existing but not granted, absent} x grant state {absent, wrong type, limited, unlimited, limited with an allow list excluding the receiver} x amount < 2^100 x module accepts/refuses, with ibc-go's own TransferAuthorization.Accept; sequences of <= 3 ICS-20 increaseAllowance / decreaseAllowance / spend operations over a grant with two channel allocations, each channel's limit compared with a running model after every step",
 			"thorough": "sequences of <= 5 operations",
 		},
 		Outside:     []string{"staking redelegate / cancelUnbonding / createValidator (same pattern; not harnessed)", "ICS-20 revoke and grants with several denominations or several allocations per approve call", "the ERC-20 precompile's approve/transferFrom (not registered in AvailablePrecompiles)", "expiry of grants (the SDK treats an expired grant as absent: contract of the grant-table stub)"},
